@@ -627,7 +627,7 @@ def main():
     chk = R.Check(PROP)
     binary = chk.build("asan")
     quick = chk.tier == "quick"
-    total = int((2000 if quick else 100000) * chk.args.scale)
+    total = int((6000 if quick else 100000) * chk.args.scale)
     nchunks = 16 if quick else 64
     per = max(1, total // nchunks)
     payloads = [("F", chk.seed, chk.tier, binary, chk.workroot, 0)]
